@@ -163,6 +163,6 @@ def coherence_oracle(moddir, diags, full_paths):
         last = steps[-1]
         mm = re.match(r"\t- ([\w./-]+\.go):(\d+):(\d+):", last)
         if mm:
-            if int(mm.group(2)) != d["line"] or not set(resolve(mm.group(1))) & set(c):
-                bad.append("last flow step is at %s:%s but the diagnostic is reported at %s:%d" % (mm.group(1), mm.group(2), d["file"], d["line"]))
+            if int(mm.group(2)) != d["line"] or int(mm.group(3)) != d.get("col", int(mm.group(3))) or not set(resolve(mm.group(1))) & set(c):
+                bad.append("last flow step is at %s:%s:%s but the diagnostic is reported at %s:%d:%s" % (mm.group(1), mm.group(2), mm.group(3), d["file"], d["line"], d.get("col")))
     return bad
